@@ -265,6 +265,10 @@ def runTeardown (P : Project) (g : G) (t : TaskSpec) (s : Sess) : List TCheck â†
   | .generatorReturn :: cs => runTeardown P g t s cs      -- not a generator: the early `return` is not taken
   | .vanishedPredecessor :: cs =>
     if (g.preds (tv t.id) ++ [tv t.id]).any (fun v => (stateOf P s.w v).isNone) then .error else runTeardown P g t s cs
+  | .ordinaryProducts :: cs =>
+    -- products that are not provisional nodes, checked before the provisional ones are resolved (9523bbe); a static project
+    -- has no provisional products: these are all its products
+    if t.prods.any (fun p => (lookup s.w.fs p).isNone) then .error else runTeardown P g t s cs
   | .provisionalProducts :: cs => runTeardown P g t s cs
   | .missingProducts :: cs =>
     if t.prods.any (fun p => (lookup s.w.fs p).isNone) then .error else runTeardown P g t s cs
